@@ -10,6 +10,6 @@ mkdir -p "$T/repo" "$T/out"
 (cd "$T/repo" && go build ./... >/dev/null 2>&1) || { echo "BUILD-FAILED"; exit 4; }
 "${UCANLINT:-$HERE/bin/ucanlint}" -property all -repo "$T/repo" -verif "$HERE" -out "$T/out" > "$T/log" 2>&1
 n=$(grep -c '^VIOLATION' "$T/log")
-echo "violations=$n $(grep 'key:' "$T/log" | sed 's/^ *key: //' | cut -c1-110 | tr '\n' ';')"
+echo "violations=$n $(grep '^  key:' "$T/log" | sed 's/^ *key: //' | cut -c1-110 | tr '\n' ';')"
 [ "${VERBOSE:-0}" = 1 ] && grep -A9 '^VIOLATION' "$T/log" | cut -c1-300
 exit 0
